@@ -88,6 +88,29 @@ def h_dot(ctx, fn, lshape, rshape, kinds, D, P):
         ctx.eq(plain(y.data), Y, 'right operand unchanged')
 
 
+def h_dot_out(ctx, fn, lshape, rshape, kinds, D, P):
+    """UTPM.dot / UTPM.outer called with out=: the buffer is filled with the result and returned
+    (whatever it held before), for polynomial and constant operands alike"""
+    algopy = symx.load_algopy()
+    x, xc, X = operand(ctx, algopy, kinds[0], 'x', tuple(lshape), D, P)
+    y, yc, Y = operand(ctx, algopy, kinds[1], 'y', tuple(rshape), D, P)
+    npf = np.dot if fn == 'dot' else np.outer
+    ref_shape = np.shape(npf(np.zeros(lshape), np.zeros(rshape)))
+    W = V(ctx, 'w', (D, P) + ref_shape)
+    buf = mk_utpm(ctx, algopy, W)
+    try:
+        z = getattr(algopy.UTPM, fn)(x, y, out=buf)
+    except NotImplementedError:
+        ctx.fact(True, 'out= is refused explicitly')
+        return
+    ctx.fact(z is buf, 'UTPM.%s(..., out=buf) returns buf' % fn)
+    Z = plain(buf.data)
+    for p in range(P):
+        ref = ps_binop(npf, xc(p), yc(p), D)
+        for d in range(D):
+            ctx.eq(Z[d, p], ref[d], 'buf after UTPM.%s(x, y, out=buf), order %d dir %d' % (fn, d, p))
+
+
 def h_iouter(ctx, lshape, rshape, D, P):
     """UTPM.iouter(x, y, out): out += x y^T in Taylor arithmetic (the accumulating form of outer);
     the result object is `out`, x and y stay unchanged."""
@@ -440,6 +463,9 @@ def units(tier, seed):
         add('expm_pade(q=%d)/1x1/D3,P2' % q, 'h_expm_pade', q=q, n=1, D=3, P=2)
     for q in (3, 5):
         add('expm_pade(q=%d)/2x2/D2,P1' % q, 'h_expm_pade', o={'unit_timeout': 600}, q=q, n=2, D=2, P=1)
+    for kinds in ('UU', 'UN', 'NU'):
+        add('dot with out=/(2,3)x(3,)/%s/D2,P2' % kinds, 'h_dot_out', fn='dot', lshape=(2, 3), rshape=(3,), kinds=kinds, D=2, P=2)
+        add('outer with out=/(2,)x(3,)/%s/D2,P2' % kinds, 'h_dot_out', fn='outer', lshape=(2,), rshape=(3,), kinds=kinds, D=2, P=2)
     add('iouter/(2,)x(3,)/D3,P2', 'h_iouter', lshape=(2,), rshape=(3,), D=3, P=2)
     add('iouter/(2,)x(2,)/D4,P1', 'h_iouter', lshape=(2,), rshape=(2,), D=4, P=1)
     for nrm in ('1/100', '1/10', '1/2', '3/2', '2', '3', '8', '30'):
